@@ -384,7 +384,8 @@ impl QueryTask {
             .map(|x| &x.limit)
             .unwrap_or(&self.main_phase.limit);
         let limit = lo.limit as usize;
-        let offset = lo.offset as usize;
+        // An OFFSET beyond the result leaves no rows
+        let offset = cmp::min(lo.offset as usize, full_result.len());
         let count = cmp::min(limit, full_result.len() - offset);
         full_result.validate().unwrap();
 
@@ -436,7 +437,10 @@ impl QueryTask {
     }
 
     fn combined_limit(&self) -> usize {
-        (self.main_phase.limit.limit + self.main_phase.limit.offset) as usize
+        self.main_phase
+            .limit
+            .limit
+            .saturating_add(self.main_phase.limit.offset) as usize
     }
 }
 
